@@ -717,7 +717,7 @@ def run(ctx):
     part_numbering(ctx, (600 if thorough else 120) * boost, parsers)
     part_select(ctx, (4000 if thorough else 800) * boost, (2000 if thorough else 400) * boost, parsers, mu)
     part_lines(ctx, (3000 if thorough else 400) * boost, O)
-    pipeline.run_pipeline_correspondence(ctx, (150 if thorough else 12) * boost, archs)
+    pipeline.run_pipeline_correspondence(ctx, (100 if thorough else 12) * boost, archs)
     part_e2e(ctx, archs, None if thorough else 8, 4 if thorough else 3)
     ctx.cov["evaluations"] = sum(ctx.counts.get(k, 0) for k in ("selection_files", "lines_strings", "numbering_files", "e2e_runs",
                                                                "int_texts", "pipeline_runs"))
